@@ -587,6 +587,19 @@ def check_fwhm(case):
     h = float(w.value) / 2
     if not (math.isfinite(h) and h > 0):
         raise Violation("fwhm-value", f"{spec['kind']}: fwhm = {w.value!r} for scale {p['scale']!r}")
+    # the parameters of a sum of peaks live in one dict; the FWHM a model reports is that of its own
+    # (prefixed) parameters, whatever else the dict holds (seeded/C16-s12: a sibling's bare 'scale' was
+    # picked up by a prefixed model).  The sibling is of the same kind, three times as wide, and carries
+    # no prefix when the model has one, the prefix 'sib_' otherwise.
+    sib = {"kind": spec["kind"], "prefix": "" if spec["prefix"] else "sib_",
+           "params": {**p, "scale": 3.0 * p["scale"]}}
+    joint = {**build_params(sib, case["xunit"], case["yunit"]), **params}
+    if len(joint) == 2 * len(params):
+        w2 = model.fwhm(joint)
+        if not (isinstance(w2, sc.Variable) and sc.identical(w2, w)):
+            raise Violation("fwhm-sibling", f"{spec['kind']} with prefix {spec['prefix']!r}: fwhm = {w!r} from its own "
+                                            f"parameters but {w2!r} when the dict also holds the parameters "
+                                            f"{sorted(set(joint) - set(params))} of another peak")
     mu = p["loc"]
     xs = [mu, mu - h, mu + h]
     x = build_x(xs, case["xunit"])
